@@ -4,8 +4,13 @@ import (
 	"bytes"
 	"sync"
 
+	"github.com/golang/snappy"
 	"github.com/hydraide/hydraide/app/core/compressor"
 )
+
+// maxSnappyExpansion bounds decoded/encoded length of the Snappy block format: the densest
+// element (copy with 2-byte offset) yields 64 bytes from 3.
+const maxSnappyExpansion = 22
 
 // snappyCompressor is a shared compressor instance for Snappy compression
 var snappyCompressor = compressor.New(compressor.Snappy)
@@ -170,6 +175,19 @@ type Block struct {
 func ParseBlock(header *BlockHeader, compressedData []byte) (*Block, error) {
 	// Validate checksum
 	if !ValidateChecksum(compressedData, header.Checksum) {
+		return nil, ErrCorruptedBlock
+	}
+
+	// The Snappy length preamble is untrusted as well: the decoder allocates the declared
+	// length up front (up to 4 GiB). A Snappy element expands at most 64 bytes per 3 input
+	// bytes, and a good block declares exactly header.UncompressedSize, so anything else is
+	// corrupt and is rejected here, before the allocation.
+	declaredLen, err := snappy.DecodedLen(compressedData)
+	if err != nil {
+		return nil, err
+	}
+	if uint64(declaredLen) != uint64(header.UncompressedSize) ||
+		uint64(declaredLen) > maxSnappyExpansion*uint64(len(compressedData)) {
 		return nil, ErrCorruptedBlock
 	}
 
